@@ -6,6 +6,7 @@ their content in Markup exactly when autoescaping is on - statically decided or 
 run time; every run-time selector tests ``context.eval_ctx.autoescape``; printed
 expressions are wrapped once by the selected escaping call.
 Also: the sandboxed str.format wrapper returns type(f_self)(...).  
+Also: the function of a recursive loop returns its buffer marked by autoescape; do_replace escapes a plain subject whenever an argument is markup (truth table).  
 Not decided: output equality over all programs.
 """
 
